@@ -141,7 +141,8 @@ class ProcessingModuleType(Serializable):
                 mn_node.attrib['name'] = self.name
         # add ModuleParameters
         if self.ModuleParameters:
-            self.ModuleParameters.to_node(doc, ns_key=ns_key, parent=node, strict=strict)
+            self.ModuleParameters.to_node(
+                doc, ns_key=None if ns_key == 'default' else ns_key, parent=node, strict=strict)
         # add the ProcessingModule children
         pm_key = self._child_xml_ns_key.get('ProcessingModules', ns_key)
         for entry in self._ProcessingModules:
